@@ -120,28 +120,27 @@ async def settle_children(conn, maxwait=2.0):
     await asyncio.sleep(0.03)
 
 
-def _procs_mentioning(needle: bytes) -> int:
+def _procs_with_cwd(cwd: str, exclude: set) -> int:
     n = 0
-    me = os.getpid()
     for d in os.listdir("/proc"):
-        if not d.isdigit() or int(d) == me:
+        if not d.isdigit() or int(d) in exclude:
             continue
         try:
-            with open(f"/proc/{d}/cmdline", "rb") as f:
-                if needle in f.read():
-                    n += 1
+            if os.readlink(f"/proc/{d}/cwd") == cwd:
+                n += 1
         except OSError:
             pass
     return n
 
 
-async def settle_background(path: str, maxwait=8.0):
-    """Orphaned background jobs (`... & id` interpreted by a one-shot `sh -c`) are re-parented; wait until no
-    process other than this one still has `path` on its command line."""
-    needle = path.encode("utf-8", errors="surrogateescape")
+async def settle_background(cwd: str, conn, maxwait=10.0):
+    """Orphaned background jobs (`... & id` interpreted by a one-shot `sh -c`) are re-parented to init, possibly
+    still between fork and exec.  Everything the connector spawns inherits the worker's private cwd, so: wait
+    until no process other than this one and the live persistent shells has that cwd."""
     t0 = time.monotonic()
     while time.monotonic() - t0 < maxwait:
-        if _procs_mentioning(needle) == 0:
+        exclude = {os.getpid()} | {s._proc.pid for s in shells(conn) if getattr(s, "_proc", None) is not None}
+        if _procs_with_cwd(cwd, exclude) == 0:
             return True
         await asyncio.sleep(0.02)
     return False
